@@ -552,7 +552,9 @@ class Diff(Part):
         par = drive.run_inproc(spec, common.args_of(dict(opts, j=n)), disk=True)
         tag = 'j%d' % n
         viol += [(s + '/' + tag, m) for s, m in common.run_escaped(par, 'C06')]
-        layer_faults = any(L.get('faults') for L in spec['layers'])
+        # (tear-down failures of shared bases are counted once per process by design; set-up failures once per
+        # dependent layer in every mode)
+        layer_faults = any((L.get('faults') or {}).get('tearDown', 'NIE') != 'NIE' for L in spec['layers'])
         overlap, nchildren = alive_overlap(par.trace, par.main_pid)
         if overlap > max(n, 1):
             viol.append(('C06/more-than-N-alive/' + tag, '%d layer subprocesses alive at the same instant with -j %d'
